@@ -132,6 +132,9 @@ func c16numTx(r *vf.Rand) int {
 	case k < 99:
 		return 51 + r.Intn(150)
 	}
+	if r.Chance(1, 60) {
+		return 65533 + r.Intn(6) // ... and around the 0xfe var-int boundary (65535 | 65536)
+	}
 	return 251 + r.Intn(6) // transaction count around the 0xfd var-int boundary
 }
 
@@ -152,8 +155,12 @@ func c16genBlock(seed uint64, info *c16genInfo) *wire.MsgBlock {
 		cats[k][0] |= 1
 	}
 	blk.Transactions = make([]*wire.MsgTx, 0, n)
+	maxIO := 5
+	if n > 1000 {
+		maxIO, tokens = 1, false // tens of thousands of minimal transactions
+	}
 	for k := 0; k < n; k++ {
-		blk.Transactions = append(blk.Transactions, c16genTx(r, 5, tokens, cats, info))
+		blk.Transactions = append(blk.Transactions, c16genTx(r, maxIO, tokens, cats, info))
 	}
 	return blk
 }
@@ -825,7 +832,71 @@ func c16genLooseTx(seed uint64, info *c16genInfo) *wire.MsgTx {
 	return c16genTx(r, maxIO, r.Bool(), cats, info)
 }
 
+// c16txNonCanonical: serialisations that wire parses but does not reproduce
+// (an output whose locking bytes start with the token prefix 0xef and an
+// all-zero category: wire reads token data and drops it again when
+// serialising).  The wrapper must describe the MESSAGE it wraps: its cached
+// hash equals a fresh hash of MsgTx(), whatever the input bytes were.
+func c16txNonCanonical(c *vf.Ctx) {
+	r := c.R
+	tx := c16genLooseTx(r.Uint64(), &c16genInfo{})
+	sc := append([]byte{0xef}, make([]byte, 32)...)
+	sc = append(sc, []byte{0x10, 0x20, 0x30, 0x60, 0x61, 0x22}[r.Intn(6)], byte(1+r.Intn(4)))
+	sc = append(sc, r.Bytes(1+r.Intn(20))...)
+	tx.AddTxOut(&wire.TxOut{Value: int64(r.Intn(1e6)), PkScript: sc})
+	raw, err := c16serTx(tx)
+	if err != nil {
+		return
+	}
+	var m2 wire.MsgTx
+	if m2.Deserialize(bytes.NewReader(raw)) != nil {
+		c.Inc("noncanonical_tx_bytes_rejected_by_wire")
+		return
+	}
+	if again, err := c16serTx(&m2); err != nil || bytes.Equal(again, raw) {
+		c.Inc("noncanonical_tx_bytes_roundtrip_after_all")
+		return
+	}
+	c.Inc("txs_from_bytes_wire_does_not_reproduce")
+	c.Nontrivial(vf.Mix(0x7c17, vf.HashBytes(raw)))
+	for _, ctor := range []string{"NewTxFromBytes", "NewTxFromReader"} {
+		var t *bchutil.Tx
+		var err error
+		desc := func() string { return fmt.Sprintf("ctor=%s bytes=%s (wire parses but does not reproduce these bytes)", ctor, short(hx(raw))) }
+		if !c.Call(ctor, desc, func() {
+			if ctor == "NewTxFromBytes" {
+				t, err = bchutil.NewTxFromBytes(append([]byte{}, raw...))
+			} else {
+				t, err = bchutil.NewTxFromReader(bytes.NewReader(raw))
+			}
+		}) || err != nil || t == nil {
+			continue
+		}
+		var hp, hp2 *chainhash.Hash
+		var mp *wire.MsgTx
+		if !c.Call("Tx.Hash", desc, func() { hp = t.Hash(); mp = t.MsgTx(); hp2 = t.Hash() }) || mp == nil || hp == nil {
+			continue
+		}
+		fresh, err := c16serTx(mp)
+		if err != nil {
+			continue
+		}
+		want := ref.Sha256d(fresh)
+		c.Evals(1)
+		if [32]byte(*hp) != want {
+			c.Failf("Tx.Hash/value", "%s: Hash()=%v, a fresh hash of the wrapped message is %x", desc(), hp, want[:])
+		}
+		if hp != hp2 {
+			c.Failf("Tx.Hash/identity", "%s: Hash() returned a different object on the second call", desc())
+		}
+	}
+}
+
 func c16txCase(c *vf.Ctx, i int) {
+	if i%16 == 15 {
+		c16txNonCanonical(c)
+		return
+	}
 	seed := c.R.Uint64()
 	var info c16genInfo
 	msg := c16genLooseTx(seed, &info)
